@@ -343,6 +343,8 @@ func (m *Machine) intercept(fn *ssa.Function) (func([]Value) Value, bool) {
 				m.tags[k] = v.Signed()
 				return nil
 			}, true
+		case "verifActive":
+			return func(args []Value) Value { return Bool{c.Bool(true)} }, true
 		case "verifSymbolic":
 			// reports whether the engine (not the native replay runtime) is executing
 			return func(args []Value) Value { return Bool{c.Bool(m.Concrete == nil)} }, true
